@@ -114,6 +114,7 @@ static int h_pthread_create(pthread_t *t, const pthread_attr_t *a, void *(*f)(vo
 
 #define MAXPEND 64
 static int capture_mode;
+static int sync_worker_mode;	/* section L: the launcher is "preempted" until the worker has finished the work it queued */
 static struct { struct urcu_work *work; void (*func)(struct urcu_work *); } pend[MAXPEND];
 static int npend;
 static int qw_resize, qw_destroy, qw_other;
@@ -130,6 +131,8 @@ static void h_queue_work(struct urcu_workqueue *wq, struct urcu_work *work,
 		return;
 	}
 	urcu_workqueue_queue_work(wq, work, func);
+	if (sync_worker_mode && func == do_resize_cb)
+		urcu_workqueue_flush_queued_work(wq);
 }
 
 /* ---- event log ----------------------------------------------------------------------------- */
@@ -849,6 +852,12 @@ static void sec_lazy(int thorough)
 					cur_op = cur_op_buf;
 					cds_lfht_resize_lazy_count(ht, size, count);
 					printf("lc %d %lu %lu %lu %lu %lu %d\n", autof, max, tgt, size, count, ht->resize_target, qw_resize - q0);
+					/* oracle: a lazy request based on the node count may lower the target only if no grow is pending
+					 * relative to the size its caller saw (target <= size); it never raises it above the clamped count */
+					if (ht->resize_target < tgt && tgt > size)
+						ORACLE("%s lowered resize_target %lu -> %lu although a grow was pending (target > caller's size)", cur_op, tgt, ht->resize_target);
+					if (ht->resize_target > tgt && ht->resize_target > (count > max ? max : (count ? count : 1)))
+						ORACLE("%s raised resize_target %lu -> %lu above the requested count", cur_op, tgt, ht->resize_target);
 				} else if (sel == 2 || sel == 3) {
 					/* ht_count_add / ht_count_del: all split counters set so that this call commits (or not) */
 					unsigned long sc = (r % 3 == 0) ? (rnd() & 0xfffff) : ((rnd() & 0xfff) << COUNT_COMMIT_ORDER);
@@ -863,6 +872,9 @@ static void sec_lazy(int thorough)
 					}
 					ht->count = (long) cnt;
 					tb = tgt;
+					snprintf(cur_op_buf, sizeof cur_op_buf, "%s(max=%lu,target=%lu,size=%lu,split_count->%lu,count=%lu)",
+						sel == 2 ? "ht_count_add" : "ht_count_del", max, tgt, size, sc, cnt);
+					cur_op = cur_op_buf;
 					if (sel == 2) {
 						ht_count_add(ht, size, rnd());
 						printf("ca %d %lu %lu %lu %lu %lu %lu %lu %d\n", autof, max, sc, cnt, size, tb, (unsigned long) ht->count, ht->resize_target, qw_resize - q0);
@@ -1246,6 +1258,45 @@ static void sec_conc(int thorough)
 	printf("conc done\n");
 }
 
+/* ------------------------------------------------------------------------------------------------
+ * Section L (informational, not a property of C09): __cds_lfht_resize_lazy_launch queues the resize work
+ * and only afterwards stores resize_initiated = 1.  If the worker completes the work in between (here: the
+ * shim makes the launcher wait for the work queue right after queueing, as if it had been preempted), the
+ * flag stays 1 with nothing queued and automatic resizing stops until an explicit cds_lfht_resize().
+ * ---------------------------------------------------------------------------------------------- */
+static void sec_lostlaunch(void)
+{
+	struct cds_lfht *ht;
+	unsigned long k, n = 3000;
+	printf("# section L: lazy launch ordering (informational)\n");
+	quiet = 1;
+	ht = new_table(K_ORDER, 1, 1, 1UL << 16, CDS_LFHT_AUTO_RESIZE);
+	quiet = 0;
+	snprintf(cur_op_buf, sizeof cur_op_buf, "lazy launch ordering demonstration");
+	cur_op = cur_op_buf;
+	wd_arm(60000);
+	sync_worker_mode = 1;
+	for (k = 0; k < n; k++) do_add(ht, k);
+	sync_worker_mode = 0;
+	urcu_workqueue_flush_queued_work(cds_lfht_workqueue);
+	printf("note lostlaunch adds %lu size %lu target %lu initiated %d\n", n, ht->size, ht->resize_target, ht->resize_initiated);
+	if (ht->resize_initiated && ht->size != ht->resize_target)
+		fprintf(stderr, "NOTE lazy launch lost (launcher delayed between queue_work and resize_initiated=1): after %lu adds size=%lu, resize_target=%lu, resize_initiated=1, no work queued; automatic resizing is off until an explicit cds_lfht_resize()\n",
+			n, ht->size, ht->resize_target);
+	cds_lfht_resize(ht, ht->resize_target);
+	for (k = 0; k < n; k++) {
+		if (!do_lookup(ht, k)) ORACLE("lazy launch demonstration: key %lu lost", k);
+		do_del(ht, k);
+	}
+	wd_disarm();
+	{
+		int rc = cds_lfht_destroy(ht, NULL);
+		urcu_workqueue_flush_queued_work(cds_lfht_workqueue);
+		if (rc || live_regions != 0) ORACLE("lazy launch demonstration: destroy rc=%d live=%ld", rc, live_regions);
+	}
+	quarantine_release();
+}
+
 int main(int argc, char **argv)
 {
 	unsigned long seed = argc > 1 ? strtoul(argv[1], 0, 0) : 1;
@@ -1286,6 +1337,7 @@ int main(int argc, char **argv)
 	if (!*only || strchr(only, 'F')) sec_destroy(thorough);
 	if (!*only || strchr(only, 'E')) sec_auto(thorough);
 	if (!*only || strchr(only, 'G')) sec_conc(thorough);
+	if (!*only || strchr(only, 'L')) sec_lostlaunch();
 	rd_stop = 1;
 	pthread_join(rd, NULL);
 	printf("# reader lookups %s\n", rd_lookups > 0 ? "some" : "none");
